@@ -204,6 +204,10 @@ def coq_eval_strings(imports, run_fn, case_terms, shard=400, timeout=900, defs="
     Cases are sharded into files of <= shard cases, compiled in parallel."""
     if not case_terms:
         return []
+    # the model files the cases import must be built against the current generated data
+    okm, logm = coq_make([imp.replace(".", "/") + ".vo" for imp in imports])
+    if not okm:
+        raise RuntimeError("the model files %s do not build: %s" % (imports, logm[-1500:]))
     tmp = tempfile.mkdtemp(prefix="vfcoq")
     try:
         shards = [case_terms[i:i + shard] for i in range(0, len(case_terms), shard)]
@@ -345,7 +349,7 @@ class Report:
         bad = coq_hygiene()
         if bad:
             self.violation("proof", "hygiene grep failed: " + "; ".join(bad[:5]), {"hygiene": bad}, no_input=True)
-        okb, log = coq_make()
+        okb, log = coq_make(["props/%s.vo" % self.pid])      # this property's theorems and everything they depend on
         pr = coq_props(self.pid) if okb or True else None
         self.coverage["obligations"] = pr["obligations"]
         self.coverage["discharged"] = pr["discharged"] if okb else min(pr["discharged"], pr["obligations"])
